@@ -13,3 +13,5 @@ import ParryModel.C18.Theorems
 #print axioms C18.segtest_iff_sat
 #print axioms C18.segtest_complete
 #print axioms C18.segtest_sound
+#print axioms C18.propagate_fuel_suffices
+#print axioms C18.fill_spec
